@@ -175,7 +175,7 @@ func runFault(idx int, raw json.RawMessage, seed int64) map[string]any {
 		cfg.HealthChecks.Passive = config.PassiveHealthCheckConfig{Enabled: true, UnhealthyThreshold: 2, UnhealthyTimeout: 1}
 	}
 	if c.F.CB {
-		cfg.CircuitBreaker = config.CircuitBreakerConfig{Enabled: true, MaxRequests: 2, FailureThreshold: 2, SuccessThreshold: 1, IntervalSeconds: 30, TimeoutSeconds: 1}
+		cfg.CircuitBreaker = config.CircuitBreakerConfig{Enabled: true, MaxRequests: 1, FailureThreshold: 2, SuccessThreshold: 1, IntervalSeconds: 30, TimeoutSeconds: 1}
 	}
 	if c.F.RL {
 		cfg.RateLimit = config.RateLimitConfig{Enabled: true, MaxTokens: 50, RefillRate: 1}
@@ -195,6 +195,10 @@ func runFault(idx int, raw json.RawMessage, seed int64) map[string]any {
 	}()
 	reqs := []any{}
 	for _, f := range c.Faults {
+		if f == "wait" {
+			time.Sleep(1200 * time.Millisecond)
+			continue
+		}
 		reqs = append(reqs, oneRequest(h.addr, f))
 	}
 	// let ejection windows (1 s) and the breaker timeout (1 s) pass
